@@ -13,7 +13,6 @@ import CogentModel.Proofs.GenBankLoc
 /-! # C06 — property theorems (sequence formats round-trip, parsers agree, chunking is invisible) -/
 namespace CogentModel.C06
 open CogentModel.Splitlines CogentModel.SeqFormats CogentModel.SeqSpec CogentModel.FastaText
-variable {cfg : Cfg}
 
 /-- **Every chunk size yields the same lines.**  For every text and *every* way of cutting it
 into non-empty chunks (hence every `chunk_size ≥ 1` of `iter_splitlines`, and every sequence of
@@ -46,7 +45,7 @@ both line based parsers applied to the text `seqs_to_fasta` writes return exactl
 order and the sequences. -/
 theorem fasta_roundtrip (recs : List (Str × List Str)) (hwf : WfRecs ['>'] recs) :
     fastaFaster (fastaFormat recs) = expected recs ∧
-    (recs ≠ [] → fastaStrict cfg (fastaFormat recs) = .ok (expected recs)) := by
+    (recs ≠ [] → fastaStrict (fastaFormat recs) = .ok (expected recs)) := by
   have hl := pySplitlines_unlines (recLines_noBreak (l0 := '>') (by decide) hwf)
   unfold fastaFaster fastaStrict
   rw [fastaFormat_eq, hl]
@@ -57,7 +56,7 @@ theorem fasta_roundtrip (recs : List (Str × List Str)) (hwf : WfRecs ['>'] recs
 covered by `fasta_roundtrip` otherwise). -/
 theorem fasta_roundtrip_blocks (bs : Nat) (hbs : 0 < bs) (recs : List Rec) (hne : recs ≠ [])
     (hwf : ∀ r ∈ recs, wfName r.1 = true ∧ wfSeq ['>'] r.2 = true) :
-    fastaStrict cfg (fastaFormatW (chunkWrap bs) recs) = .ok recs ∧
+    fastaStrict (fastaFormatW (chunkWrap bs) recs) = .ok recs ∧
     fastaFaster (fastaFormatW (chunkWrap bs) recs) = recs := by
   have hw : WfRecs ['>'] (recs.map (fun r => (r.1, chunkWrap bs r.2))) := by
     intro r hr
@@ -70,7 +69,7 @@ theorem fasta_roundtrip_blocks (bs : Nat) (hbs : 0 < bs) (recs : List Rec) (hne 
     apply List.map_congr_left
     intro r _
     simp [chunkWrap_flatten hbs]
-  have := fasta_roundtrip (cfg := cfg) _ hw
+  have := fasta_roundtrip _ hw
   unfold fastaFormatW
   rw [he] at this
   exact ⟨this.2 (by simpa using hne), this.1⟩
@@ -91,23 +90,23 @@ upper-cases; `fasta_general_agree` states the lower-case behaviour exactly). The
 splitting on `>` anywhere) lives on only as a regression witness in `known_findings.d/C06.json`. -/
 theorem fasta_parsers_agree (recs : List (Str × List Str)) (hne : recs ≠ [])
     (hwf : WfRecs ['>'] recs) (hlow : ∀ r ∈ recs, noLower r.2.flatten = true) :
-    fastaStrict cfg (fastaFormat recs) = .ok (fastaBytes cfg (fastaFormat recs)) ∧
-    fastaFaster (fastaFormat recs) = fastaBytes cfg (fastaFormat recs) ∧
-    fastaBytes cfg (fastaFormat recs) = expected recs := by
-  have hb : fastaBytes cfg (fastaFormat recs) = expected recs := by
+    fastaStrict (fastaFormat recs) = .ok (fastaBytes (fastaFormat recs)) ∧
+    fastaFaster (fastaFormat recs) = fastaBytes (fastaFormat recs) ∧
+    fastaBytes (fastaFormat recs) = expected recs := by
+  have hb : fastaBytes (fastaFormat recs) = expected recs := by
     rw [fastaFormat_eq]; exact fastaBytes_recs recs hwf hlow
-  have := fasta_roundtrip (cfg := cfg) recs hwf
+  have := fasta_roundtrip recs hwf
   rw [hb]
   exact ⟨this.2 hne, this.1, rfl⟩
 
-example : fastaBytes Cfg.pinned (fastaFormat [(['a', '>', 'b', ' ', 'c'], [['A', 'C', 'G', 'T']])]) =
+example : fastaBytes (fastaFormat [(['a', '>', 'b', ' ', 'c'], [['A', 'C', 'G', 'T']])]) =
     [(['a', '>', 'b', ' ', 'c'], ['A', 'C', 'G', 'T'])] := by decide
 
 /-- **GDE round-trip** for every block size ≥ 1: `MinimalGdeParser` (label characters `%#`, strict
 and non-strict) applied to what `GDEFormatter.format` writes returns the records. -/
 theorem gde_roundtrip (bs : Nat) (hbs : 0 < bs) (recs : List Rec) (hne : recs ≠ [])
     (hwf : ∀ r ∈ recs, wfName r.1 = true ∧ wfSeq ['%', '#'] r.2 = true) :
-    gdeStrict cfg (gdeFormat bs recs) = .ok recs ∧
+    gdeStrict (gdeFormat bs recs) = .ok recs ∧
     fasterParser ['%', '#'] (pySplitlines (gdeFormat bs recs)) = recs := by
   have hw := blocked_wf hbs hwf
   have hl := pySplitlines_unlines (recLines_noBreak (l0 := '%') (by decide) hw)
@@ -219,26 +218,26 @@ theorem phylip_text_nlOnly (bs : Nat) (hbs : 0 < bs) (recs : List Rec) (text : S
 theorem fasta_streamed_roundtrip (recs : List (Str × List Str)) (hwf : WfRecs ['>'] recs)
     (chunks : List (List Char)) (hne : ∀ ch ∈ chunks, ch ≠ []) (hcat : chunks.flatten = fastaFormat recs) :
     fasterParser ['>'] (iterSplitlines chunks) = expected recs ∧
-    (recs ≠ [] → strictParser cfg ['>'] (iterSplitlines chunks) = .ok (expected recs)) := by
+    (recs ≠ [] → strictParser ['>'] (iterSplitlines chunks) = .ok (expected recs)) := by
   have hnl := fasta_text_nlOnly recs hwf
   rw [streamed_parse_eq (fasterParser ['>']) _ hnl chunks hne hcat,
-    streamed_parse_eq (strictParser cfg ['>']) _ hnl chunks hne hcat]
+    streamed_parse_eq (strictParser ['>']) _ hnl chunks hne hcat]
   exact fasta_roundtrip recs hwf
 
 /-- **GDE, every chunk size and every block size** (the registry's `LineBasedParser(MinimalGdeParser)`) -/
 theorem gde_streamed_roundtrip (bs : Nat) (hbs : 0 < bs) (recs : List Rec) (hne : recs ≠ [])
     (hwf : ∀ r ∈ recs, wfName r.1 = true ∧ wfSeq ['%', '#'] r.2 = true)
     (chunks : List (List Char)) (hch : ∀ ch ∈ chunks, ch ≠ []) (hcat : chunks.flatten = gdeFormat bs recs) :
-    strictParser cfg ['%', '#'] (iterSplitlines chunks) = .ok recs ∧
+    strictParser ['%', '#'] (iterSplitlines chunks) = .ok recs ∧
     fasterParser ['%', '#'] (iterSplitlines chunks) = recs := by
   have hnl := gde_text_nlOnly bs hbs recs hwf
-  rw [streamed_parse_eq (strictParser cfg ['%', '#']) _ hnl chunks hch hcat,
+  rw [streamed_parse_eq (strictParser ['%', '#']) _ hnl chunks hch hcat,
     streamed_parse_eq (fasterParser ['%', '#']) _ hnl chunks hch hcat]
   exact gde_roundtrip bs hbs recs hne hwf
 
 example : [['%', 's', '>'], ['1', '\n', 'A'], ['C', '\n'], ['G', 'T', '\n', 'A', '\n']].flatten
     = gdeFormat 2 [(['s', '>', '1'], ['A', 'C', 'G', 'T', 'A'])] := by decide
-example : strictParser Cfg.pinned ['%', '#'] (iterSplitlines [['%', 's', '>'], ['1', '\n', 'A'], ['C', '\n'], ['G', 'T', '\n', 'A', '\n']])
+example : strictParser ['%', '#'] (iterSplitlines [['%', 's', '>'], ['1', '\n', 'A'], ['C', '\n'], ['G', 'T', '\n', 'A', '\n']])
     = .ok [(['s', '>', '1'], ['A', 'C', 'G', 'T', 'A'])] := by decide
 
 /-- **PAML, every chunk size and every block size** (the registry's `LineBasedParser(PamlParser)`) -/
@@ -285,8 +284,8 @@ their upper-casing (`minimal_converter`), so all three are identical on upper-ca
 body line. -/
 theorem fasta_general_agree (gs : List GRec) (h : wfFile gs = true) :
     fastaFaster (fileRaw gs) = records gs ∧
-    (gs ≠ [] → fastaStrict cfg (fileRaw gs) = .ok (records gs)) ∧
-    fastaBytes cfg (fileRaw gs) = (records gs).map (fun r => (r.1, upper r.2)) := by
+    (gs ≠ [] → fastaStrict (fileRaw gs) = .ok (records gs)) ∧
+    fastaBytes (fileRaw gs) = (records gs).map (fun r => (r.1, upper r.2)) := by
   have hl := pySplitlines_fileRaw gs h
   have hf := wfFile_facts h
   unfold fastaFaster fastaStrict
@@ -296,8 +295,8 @@ theorem fasta_general_agree (gs : List GRec) (h : wfFile gs = true) :
 /-- on upper-case residues the three parsers return identical records -/
 theorem fasta_general_agree_upper (gs : List GRec) (h : wfFile gs = true) (hne : gs ≠ [])
     (hup : ∀ g ∈ gs, noLower (residues g) = true) :
-    fastaStrict cfg (fileRaw gs) = .ok (fastaBytes cfg (fileRaw gs)) ∧ fastaFaster (fileRaw gs) = fastaBytes cfg (fileRaw gs) ∧
-    fastaBytes cfg (fileRaw gs) = records gs := by
+    fastaStrict (fileRaw gs) = .ok (fastaBytes (fileRaw gs)) ∧ fastaFaster (fileRaw gs) = fastaBytes (fileRaw gs) ∧
+    fastaBytes (fileRaw gs) = records gs := by
   obtain ⟨h1, h2, h3⟩ := fasta_general_agree gs h
   have : (records gs).map (fun r => (r.1, upper r.2)) = records gs := by
     conv => rhs; rw [← List.map_id (records gs)]
@@ -317,7 +316,7 @@ example : fileRaw [⟨[' '], ['a', '>', 'b'], [' '], true, [⟨[], .crlf⟩, ⟨
                    ⟨[], [], [], false, [⟨[' ', '\t', 'T', '-'], .lf⟩, ⟨[], .lf⟩, ⟨['N', 'N'], .eof⟩]⟩] =
     ['>', ' ', 'a', '>', 'b', ' ', '\r', '\n', '\r', '\n', 'A', 'C', ' ', 'g', '\r', '\n', '\n',
      '>', '\n', ' ', '\t', 'T', '-', '\n', '\n', 'N', 'N'] := by decide
-example : fastaBytes Cfg.pinned ['>', ' ', 'a', '>', 'b', ' ', '\r', '\n', '\r', '\n', 'A', 'C', ' ', 'g', '\r', '\n', '\n',
+example : fastaBytes ['>', ' ', 'a', '>', 'b', ' ', '\r', '\n', '\r', '\n', 'A', 'C', ' ', 'g', '\r', '\n', '\n',
      '>', '\n', ' ', '\t', 'T', '-', '\n', '\n', 'N', 'N'] = [(['a', '>', 'b'], ['A', 'C', 'G']), ([], ['T', '-', 'N', 'N'])] := by
   decide
 
